@@ -477,34 +477,128 @@ Proof.
   - destruct G as [-> E]. inversion H; subst. rewrite <- R, E. split; reflexivity.
 Qed.
 
+(** ** A scan that runs alone *)
+
+Definition fr (lo hi : Z) (t : table) : table := filter (in_range lo hi) t.
+
+Fixpoint srest_level (lo hi : Z) (m : table) (l : list tbl) (n : nat) : table :=
+  match n with
+  | O => m
+  | S n' => match nth_error l n' with
+            | None => m
+            | Some t => srest_level lo hi (add_absent m (fr lo hi (tdata t))) l n'
+            end
+  end.
+
+Fixpoint srest_levels (lo hi : Z) (m : table) (ls : list (list tbl)) (n : nat) : table :=
+  match ls with
+  | [] => m
+  | l :: r => srest_levels lo hi (srest_level lo hi m l n) r (match r with [] => O | l' :: _ => length l' end)
+  end.
+
+Lemma scan_level_c_spec lo hi l : forall n m,
+  match scan_level_c lo hi m l n with
+  | (m', None) => m' = srest_level lo hi m l n
+  | (m', Some (n', t)) => srest_level lo hi m l n = srest_level lo hi (add_absent m' (fr lo hi t)) l n'
+  end.
+Proof.
+  induction n as [|n IH]; intros m; cbn [scan_level_c srest_level]; [reflexivity|].
+  destruct (nth_error l n) as [t|]; [|reflexivity].
+  destruct (scan_pages lo hi (tdata t) >? 0); [reflexivity|]. apply IH.
+Qed.
+
+Lemma scan_levels_c_spec lo hi : forall ls m li n,
+  match scan_levels_c lo hi m ls li n with
+  | RDone x => x = OScan (live (srest_levels lo hi m ls n))
+  | RYield _ kk =>
+      exists d n' t m', kk = KScanWait lo hi m' (li + d) n' t /\
+        srest_levels lo hi m ls n = srest_levels lo hi (add_absent m' (fr lo hi t)) (skipn d ls) n'
+  end.
+Proof.
+  induction ls as [|l r IH]; intros m li n; cbn [scan_levels_c srest_levels]; [reflexivity|].
+  pose proof (scan_level_c_spec lo hi l n m) as G. destruct (scan_level_c lo hi m l n) as [m' [[n' t]|]].
+  - exists 0%nat, n', t, m'. rewrite Nat.add_0_r. split; [reflexivity|]. cbn [skipn srest_levels]. now rewrite G.
+  - subst m'. specialize (IH (srest_level lo hi m l n) (S li) (match r with [] => 0%nat | l' :: _ => length l' end)).
+    destruct (scan_levels_c lo hi _ r (S li) _) as [ns kk|x]; [|exact IH].
+    destruct IH as (d & n' & t & m' & -> & E). exists (S d), n', t, m'. split; [f_equal; lia|]. exact E.
+Qed.
+
+Lemma scan_resume_alone c fuel : forall st lo hi m li n held st' r,
+  run_alone fuel c bl st (AResume (KScanWait lo hi m li n held)) = Some (st', r) ->
+  st' = st /\ r = OScan (live (srest_levels lo hi (add_absent m (fr lo hi held)) (skipn li (c_levels st)) n)).
+Proof.
+  induction fuel as [|fuel IH]; intros st lo hi m li n held st' r H; [discriminate|].
+  cbn [run_alone seg] in H. fold (fr lo hi held) in H.
+  pose proof (scan_levels_c_spec lo hi (skipn li (c_levels st)) (add_absent m (fr lo hi held)) li n) as G.
+  destruct (scan_levels_c lo hi _ (skipn li (c_levels st)) li n) as [ns kk|x].
+  - destruct G as (d & n' & t & m' & -> & E). apply IH in H. destruct H as [-> ->]. split; [reflexivity|].
+    rewrite E, skipn_plus. reflexivity.
+  - subst x. inversion H; subst. split; reflexivity.
+Qed.
+
+Lemma srest_level_scan lo hi l : forall n m, (n <= length l)%nat ->
+  srest_level lo hi m l n = fold_left (fun m t => add_absent m (fr lo hi t)) (rev (map tdata (firstn n l))) m.
+Proof.
+  induction n as [|n IH]; intros m Hn; [reflexivity|]. cbn [srest_level].
+  destruct (nth_error l n) as [t|] eqn:Et; [|apply nth_error_None in Et; lia].
+  assert (firstn (S n) l = firstn n l ++ [t]) as ->.
+  { clear -Et. revert n Et. induction l as [|x r IH]; intros n Et; [destruct n; discriminate|].
+    destruct n; cbn in *; [inversion Et; reflexivity|]. f_equal. apply IH. assumption. }
+  rewrite map_app, rev_app_distr. cbn [map rev app fold_left]. apply IH. lia.
+Qed.
+
+Lemma srest_levels_scan lo hi : forall ls m,
+  srest_levels lo hi m ls (match ls with [] => O | l :: _ => length l end) =
+  fold_left (scan_level lo hi) (abs_levels ls) m.
+Proof.
+  induction ls as [|l r IH]; intros m; [reflexivity|]. cbn [srest_levels abs_levels map fold_left].
+  rewrite srest_level_scan by lia. rewrite firstn_all. fold (abs_levels r). rewrite IH. reflexivity.
+Qed.
+
+Lemma scan_alone c fuel st lo hi st' r : c_imm st = [] ->
+  run_alone fuel c bl st (AStart (Scan lo hi)) = Some (st', r) ->
+  st' = st /\ r = OScan (lsm_scan lo hi (abs st)).
+Proof.
+  intros Hi H. destruct fuel as [|fuel]; [discriminate|]. cbn [run_alone seg] in H.
+  rewrite Hi in H. cbn [rev fold_left] in H.
+  unfold lsm_scan, scan_merged. cbn [abs mem levels].
+  set (m0 := set_all [] (filter (in_range lo hi) (c_mem st))) in *.
+  pose proof (scan_levels_c_spec lo hi (c_levels st) m0 0 (l0_len st)) as G.
+  assert (srest_levels lo hi m0 (c_levels st) (l0_len st) = fold_left (scan_level lo hi) (abs_levels (c_levels st)) m0) as R
+    by (unfold l0_len; apply srest_levels_scan).
+  destruct (scan_levels_c lo hi m0 (c_levels st) 0 (l0_len st)) as [ns kk|x].
+  - destruct G as (d & n' & t & m' & -> & E). apply scan_resume_alone in H. destruct H as [-> ->].
+    split; [reflexivity|]. cbn [Nat.add]. rewrite <- R, E. reflexivity.
+  - subst x. inversion H; subst. rewrite R. split; reflexivity.
+Qed.
+
 (** ** Sequences of operations that each run alone *)
 
-Definition no_scan (o : op) : Prop := match o with Scan _ _ => False | _ => True end.
-
-Lemma op_alone c fuel st o st' r : quiet st -> no_scan o ->
+Lemma op_alone c fuel st o st' r : quiet st ->
   run_alone fuel c bl st (AStart o) = Some (st', r) ->
   quiet st' /\ abs st' = apply c (abs st) o /\ r = op_out bl (abs st) o.
 Proof.
-  intros Q Hs H. destruct o as [k v|k|k|lo hi]; [| | |destruct Hs].
+  intros Q H. destruct o as [k v|k|k|lo hi].
   - destruct (write_alone c bl st k (Val v) fuel st' r (Put k v) eq_refl Q H) as (-> & A & Q'). auto.
   - destruct (write_alone c bl st k Tomb fuel st' r (Del k) eq_refl Q H) as (-> & A & Q'). auto.
   - destruct Q as (Hu & Hi & Hn). destruct (get_alone c fuel st k st' r Hi H) as [-> ->].
     split; [split; [|split]; assumption|split; reflexivity].
+  - destruct Q as (Hu & Hi & Hn). destruct (scan_alone c fuel st lo hi st' r Hi H) as [-> ->].
+    split; [split; [|split]; assumption|split; reflexivity].
 Qed.
 
-Lemma seq_exec_ok c fuel : forall ops st st' outs, quiet st -> Forall no_scan ops ->
+Lemma seq_exec_ok c fuel : forall ops st st' outs, quiet st ->
   seq_exec fuel c bl st ops = Some (st', outs) ->
   abs st' = fold_left (apply c) ops (abs st) /\
   forall i o, nth_error ops i = Some o ->
     nth_error outs i = Some (op_out bl (fold_left (apply c) (firstn i ops) (abs st)) o).
 Proof.
-  induction ops as [|o r IH]; intros st st' outs Q Hf H; cbn [seq_exec] in H.
+  induction ops as [|o r IH]; intros st st' outs Q H; cbn [seq_exec] in H.
   - inversion H; subst. split; [reflexivity|]. intros i o Hi. destruct i; discriminate.
-  - apply Forall_cons_iff in Hf. destruct Hf as [H1 H2].
-    destruct (run_alone fuel c bl st (AStart o)) as [[st1 x]|] eqn:E1; [|discriminate].
+  - destruct (run_alone fuel c bl st (AStart o)) as [[st1 x]|] eqn:E1; [|discriminate].
     destruct (seq_exec fuel c bl st1 r) as [[st2 xs]|] eqn:E2; [|discriminate]. inversion H; subst.
-    destruct (op_alone c fuel st o st1 x Q H1 E1) as (Q1 & A1 & ->).
-    destruct (IH st1 st' xs Q1 H2 E2) as [A2 O2]. split.
+    destruct (op_alone c fuel st o st1 x Q E1) as (Q1 & A1 & ->).
+    destruct (IH st1 st' xs Q1 E2) as [A2 O2]. split.
     + cbn [fold_left]. rewrite <- A1. exact A2.
     + intros i o' Hi. destruct i as [|i]; cbn in Hi |- *.
       * inversion Hi; subst. reflexivity.
@@ -526,26 +620,43 @@ Qed.
 Lemma abs_init c : abs (c_init c) = lsm_init c.
 Proof. unfold abs, c_init, lsm_init, abs_levels. cbn. f_equal. induction (nlev c); cbn; [reflexivity|]. f_equal. assumption. Qed.
 
-(** PARTIAL overlap theorem: when every operation (put, delete, get through
-    the generator API) runs alone — its segments are not interleaved with
-    another operation's — every get returns the value of the reference map,
-    for every configuration, strategy and Bloom filter without false negatives. *)
+(** PARTIAL overlap theorem: when every operation (put, delete, get, scan
+    through the generator API) runs alone — its segments are not interleaved
+    with another operation's — it returns exactly what the sequential model
+    returns, hence every get returns the value of the reference map and every
+    scan exactly the live keys of its range in order; for every configuration,
+    strategy and Bloom filter without false negatives. *)
 Theorem lsm_alone_partial : forall bl, (forall ks k, In k ks -> bl ks k = true) ->
-  forall c fuel ops st' outs, (nlev c >= 1)%nat -> Forall no_scan ops ->
+  forall c fuel ops st' outs, (nlev c >= 1)%nat ->
   seq_exec fuel c bl (c_init c) ops = Some (st', outs) ->
   forall i k, nth_error ops i = Some (Get k) ->
   nth_error outs i = Some (OGet (spec_of (firstn i ops) k)).
 Proof.
-  intros bl Hb c fuel ops st' outs Hn Hf H i k Hi.
-  destruct (seq_exec_ok bl Hb c fuel ops (c_init c) st' outs (init_quiet c Hn) Hf H) as [_ O].
+  intros bl Hb c fuel ops st' outs Hn H i k Hi.
+  destruct (seq_exec_ok bl Hb c fuel ops (c_init c) st' outs (init_quiet c Hn) H) as [_ O].
   rewrite (O i (Get k) Hi). cbn [op_out]. rewrite abs_init.
   change (fold_left (apply c) (firstn i ops) (lsm_init c)) with (run c (firstn i ops)).
   rewrite (lsm_get_refines_map bl Hb c (firstn i ops) k Hn). reflexivity.
 Qed.
 
+Theorem lsm_alone_scan_partial : forall bl, (forall ks k, In k ks -> bl ks k = true) ->
+  forall c fuel ops st' outs, (nlev c >= 1)%nat ->
+  seq_exec fuel c bl (c_init c) ops = Some (st', outs) ->
+  forall i lo hi, nth_error ops i = Some (Scan lo hi) ->
+  exists r, nth_error outs i = Some (OScan r) /\ strictly_increasing (map fst r) /\
+    forall k v, In (k, v) r <-> (lo <= k < hi /\ spec_of (firstn i ops) k = Some v).
+Proof.
+  intros bl Hb c fuel ops st' outs Hn H i lo hi Hi.
+  destruct (seq_exec_ok bl Hb c fuel ops (c_init c) st' outs (init_quiet c Hn) H) as [_ O].
+  rewrite (O i (Scan lo hi) Hi). cbn [op_out]. rewrite abs_init.
+  change (fold_left (apply c) (firstn i ops) (lsm_init c)) with (run c (firstn i ops)).
+  exists (lsm_scan lo hi (run c (firstn i ops))). split; [reflexivity|].
+  exact (lsm_scan_exact c (firstn i ops) lo hi Hn).
+Qed.
+
 (** the hypothesis is satisfiable: enough fuel lets every operation finish *)
 Example lsm_alone_example :
   option_map snd (seq_exec 8 (mkCfg 1 2 (SizeTiered 2)) bl_exact (c_init (mkCfg 1 2 (SizeTiered 2)))
-    [Put 1 10; Put 2 20; Del 1; Put 3 30; Get 1; Get 2])
-  = Some [ONone; ONone; ONone; ONone; OGet None; OGet (Some 20)].
+    [Put 1 10; Put 2 20; Del 1; Put 3 30; Get 1; Get 2; Scan 0 9])
+  = Some [ONone; ONone; ONone; ONone; OGet None; OGet (Some 20); OScan [(2, 20); (3, 30)]].
 Proof. vm_compute. reflexivity. Qed.
